@@ -315,6 +315,8 @@ def r5(tree, rep):
 
 
 def run(tree, rep, tier):
+    from .. import ctxmgr
+    ctxmgr.check_with_blocks(tree, rep, "C05.R6", ["src/wormhole/cli/cmd_receive.py"])
     r1(tree, rep)
     r2(tree, rep)
     r3(tree, rep)
